@@ -913,7 +913,7 @@ Qed.
 (* ---------- the simulation invariant between the specification and the API model ---------- *)
 Definition prep_rel (pm : pmsg) (pb : list N * bool) : Prop :=
   exists nk, pm_hybi pm = encode_frame (mkFrame true 0 (opc (snd pb)) (prep_key nk) (fst pb)) /\
-             lenN (fst pb) <= max_len.
+             lenN (fst pb) <= max_len /\ pm_payload pm = fst pb.
 
 Definition sstate_of (sp : spst) : sendstate :=
   match sp with
@@ -1180,13 +1180,21 @@ Proof.
     repeat (split; [first [assumption|reflexivity|exact I]|]).
     split.
     + apply Forall2_app; [exact I2|]. constructor; [|constructor].
-      exists (next_key a). cbn [pm_hybi fst snd]. split; [reflexivity|exact E].
+      exists (next_key a). cbn [pm_hybi pm_payload fst snd]. split; [reflexivity|]. split; [exact E|reflexivity].
     + repeat (split; [first [assumption|reflexivity|exact I]|]). exists fs. split; [exact Hp|exact Hrest].
   - (* sendPreparedMessage *)
     destruct sp; try discriminate.
-    destruct (nth_error prep i) as [[p b]|] eqn:En; [|discriminate]. injection Hs as <- <- <-.
-    destruct (Forall2_nth_error _ _ _ I2 _ _ En) as (pm & Hn & nk & Hh & Hl). cbn [fst snd] in Hh, Hl.
-    cbn [api_step]. rewrite Hn. eexists _, _, _. split; [reflexivity|]. split; [left; reflexivity|].
+    destruct (nth_error prep i) as [[p b]|] eqn:En; [|discriminate].
+    destruct ((max_message_payload_size c =? 0) || (lenN p <=? max_message_payload_size c)) eqn:Esz; [|discriminate].
+    injection Hs as <- <- <-.
+    destruct (Forall2_nth_error _ _ _ I2 _ _ En) as (pm & Hn & nk & Hh & Hl & Hpp). cbn [fst snd] in Hh, Hl, Hpp.
+    cbn [api_step]. rewrite Hn, Hpp.
+    assert (Hs0 : (0 <? max_message_payload_size c) && (max_message_payload_size c <? lenN p) = false).
+    { apply orb_prop in Esz. destruct Esz as [H|H].
+      - apply N.eqb_eq in H. rewrite H. reflexivity.
+      - apply N.leb_le in H. replace (max_message_payload_size c <? lenN p) with false
+          by (symmetry; apply N.ltb_ge; exact H). apply andb_false_r. }
+    rewrite Hs0. eexists _, _, _. split; [reflexivity|]. split; [left; reflexivity|].
     cbn [map concat sd_data]. rewrite app_nil_r, Hh.
     eapply inv_boundary_frame; try eassumption; try reflexivity.
     + apply data_frame_pass; [right; apply opc_cases|apply prep_key_ok|apply prep_key_ok|exact Hl].
@@ -1873,4 +1881,21 @@ Proof.
     reflexivity.
   - unfold tail, encode_header. destruct (len_field (s_flen a')), (s_fmask a'); discriminate.
   - destruct Hopn as [(-> & _)|(acc0 & -> & _)]; [left; reflexivity|right; eauto].
+Qed.
+
+
+(* ---------- two connections side by side: what each one writes depends on its own calls only ---------- *)
+Lemma product_noninterference c1 c2 ks1 ks2 ops : forall s1 s2,
+  let '((t1, t2), outs) := run2 c1 c2 ks1 ks2 s1 s2 ops in
+  (t1, sel true outs) = run c1 ks1 s1 (sel true ops) /\ (t2, sel false outs) = run c2 ks2 s2 (sel false ops).
+Proof.
+  induction ops as [|[b o] r IH]; intros s1 s2.
+  - cbn. split; reflexivity.
+  - destruct b; cbn [run2].
+    + destruct (step c1 ks1 s1 o) as [[s1' w] rt] eqn:E.
+      specialize (IH s1' s2). destruct (run2 c1 c2 ks1 ks2 s1' s2 r) as [[t1 t2] outs]. destruct IH as [H1 H2].
+      unfold sel in *. cbn [filter fst Bool.eqb map snd run]. rewrite E, <- H1. split; [reflexivity|exact H2].
+    + destruct (step c2 ks2 s2 o) as [[s2' w] rt] eqn:E.
+      specialize (IH s1 s2'). destruct (run2 c1 c2 ks1 ks2 s1 s2' r) as [[t1 t2] outs]. destruct IH as [H1 H2].
+      unfold sel in *. cbn [filter fst Bool.eqb map snd run]. rewrite E, <- H2. split; [exact H1|reflexivity].
 Qed.
